@@ -24,6 +24,15 @@ type PropCfg struct {
 	Assumptions []string  `json:"assumptions"`
 }
 
+// evidenceDir: /verif/evidence for every registered check; SYMGO_EVIDENCE_DIR redirects it when a seeded change is
+// tried on a scratch worktree (tools/mutest.sh), so that such trials never overwrite the evidence of the real tree.
+func evidenceDir() string {
+	if d := os.Getenv("SYMGO_EVIDENCE_DIR"); d != "" {
+		return d
+	}
+	return filepath.Join(VerifDir, "evidence")
+}
+
 type knownFinding struct {
 	Prop, Key, Text string
 }
@@ -107,7 +116,7 @@ func cmdCheck(args []string) {
 	if !*keep {
 		defer os.RemoveAll(tmp)
 	}
-	replayDir := filepath.Join(VerifDir, "evidence", "replays")
+	replayDir := filepath.Join(evidenceDir(), "replays")
 	os.MkdirAll(replayDir, 0o755)
 	// stale replays of this property are removed: a replay file always belongs to the run that wrote it
 	old, _ := filepath.Glob(filepath.Join(replayDir, "*"+*prop+"-*.json"))
@@ -399,6 +408,6 @@ func (ev *evidence) write() {
 		doc["assumptions"] = []string{}
 	}
 	b, _ := json.MarshalIndent(doc, "", " ")
-	os.MkdirAll(filepath.Join(VerifDir, "evidence"), 0o755)
-	os.WriteFile(filepath.Join(VerifDir, "evidence", ev.Prop+".json"), b, 0o644)
+	os.MkdirAll(evidenceDir(), 0o755)
+	os.WriteFile(filepath.Join(evidenceDir(), ev.Prop+".json"), b, 0o644)
 }
